@@ -1366,6 +1366,11 @@ class Exec:
                         out.extend(self.call_contract(api.CONTRACTS[name], vals, dict(zip(kw.keys(), kvals)), s2))
                 return out
             raise Unsupported(f"call of {name} (no contract; A10) at line {self.line}")
+        if isinstance(f, ast.Attribute) and f.attr == "__class__" and isinstance(f.value, ast.Name) and isinstance(st.vars.get(f.value.id), VObj):
+            # self.__class__(...): an instance of the receiver's (static) class; the sidecar states the
+            # dynamic-dispatch assumption (body_requires) under which the static class is the dynamic one
+            self.notes.append(f"{f.value.id}.__class__(...) constructs a {st.vars[f.value.id].kind} (static class of the receiver)")
+            return self.construct(st.vars[f.value.id].kind, e.args, kw, st)
         if isinstance(f, ast.Attribute):
             # module alias: pm_node.is_text(x)
             if isinstance(f.value, ast.Name) and f.value.id not in st.vars and f.value.id not in api.CLASSES and f.value.id != "cls":
@@ -1622,7 +1627,7 @@ class Exec:
             clauses = case.get("ensures", [])
             if cc.virtual and not (params.get("self") is not None and getattr(params.get("self"), "kind", None) != cc.qualname.split(".")[0]):
                 clauses = cc.virtual_ensures
-            for clause in clauses:
+            for clause in list(clauses) + list(cc.defines):
                 f = Pure(self.ctx, post_env, rv).b(_parse_spec(clause))
                 assumed.append(f)
                 assumed.extend(seq_facts(f, bool(self.ctx.expand_quant)))
